@@ -1,6 +1,6 @@
 (* Dispatcher of the extracted model: one S-expression in, one out. *)
 From Coq Require Import String.
-From HS Require Import Base.Prelude Model.Version Model.SortableDict Model.Grid Model.Qty Model.Eq Model.Escape Model.Value Model.Json Model.ZincDump Model.ZincParse Model.Gate Model.TZ Model.Filter.
+From HS Require Import Base.Prelude Model.Version Model.SortableDict Model.Grid Model.Qty Model.Eq Model.Escape Model.Value Model.Json Model.ZincDump Model.ZincParse Model.Gate Model.TZ Model.Filter Model.FilterCache.
 
 Definition run_command (c : sexp) : sexp :=
   match c with
@@ -32,6 +32,7 @@ Definition run_command (c : sexp) : sexp :=
       else if str_eqb name (s_ "tz-name") then cmd_tz_name args
       else if str_eqb name (s_ "fparse") then cmd_fparse args
       else if str_eqb name (s_ "frun") then cmd_frun args
+      else if str_eqb name (s_ "cache-run") then cmd_cache_run args
       else bad_request
   | _ => bad_request
   end.
